@@ -5,6 +5,7 @@ import (
 	"fmt"
 	"io"
 	"math/rand"
+	"strings"
 
 	"github.com/ulikunitz/lz"
 	"verif/core"
@@ -33,6 +34,10 @@ func (d *decProp) KindCPU(kind, tier string) int { return decKindCPU(kind) }
 
 func decKindCPU(kind string) int {
 	if len(kind) >= 3 && kind[:3] == "big" {
+		return 120
+	}
+	switch class, _ := splitKind(kind); class {
+	case "tinybig", "hugetight", "longmatch", "manyseq":
 		return 120
 	}
 	return 20
@@ -207,13 +212,17 @@ func init() {
 			assumptions: []string{"when DecoderBuffer may answer ErrFullBuffer is not asserted (capacity is soft), only that a refused operation changed nothing; acceptance duties belong to C07"},
 			mandatory:   []string{"matches_written", "overlapping_matches", "offset==WindowSize", "bytes_read", "valid_blocks_with_sequences", "steps_with_shrink", "resets", "reinits", "flushes_verified", "writeto_with_failing_writer", "calls_with_writer_fault"},
 			expected:    []string{"reinit_raised_buffersize", "buffer_refused_full"}},
-		owned: owned("read-bytes", "append-wrong", "window-lost", "struct-invariant", "valid-offset-rejected", "unexpected-error", "flush-incomplete", "writer-prefix", "panic", "oversized-accepted", "stale-writer-error"),
+		owned: owned("read-bytes", "append-wrong", "window-lost", "struct-invariant", "valid-offset-rejected", "unexpected-error", "flush-incomplete", "writer-prefix", "panic", "oversized-accepted", "stale-writer-error", "spin"),
 		kinds: func(tier string) []core.Segment {
 			m := tierScale(tier, 60)
 			return []core.Segment{{Kind: "corpus:buffer", N: 1640}, {Kind: "buffer", N: 12000 * m}, {Kind: "corpus:decoder", N: 820}, {Kind: "decoder", N: 8000 * m},
 				{Kind: "big:buffer", N: 42 * m, Chunk: 3}, {Kind: "big:decoder", N: 42 * m, Chunk: 3}, {Kind: "faulty:decoder", N: 5000 * m},
 				{Kind: "runs:buffer", N: 2000 * m}, {Kind: "runs:decoder", N: 1500 * m},
-				{Kind: "bigtight:buffer", N: 30 * m, Chunk: 3}, {Kind: "bigtight:decoder", N: 60 * m, Chunk: 3}}
+				{Kind: "bigtight:buffer", N: 30 * m, Chunk: 3}, {Kind: "bigtight:decoder", N: 60 * m, Chunk: 3},
+				{Kind: "manyseq:buffer", N: 300 * m, Chunk: 30}, {Kind: "manyseq:decoder", N: 300 * m, Chunk: 30},
+				{Kind: "tinybig:decoder", N: 4 * tierScale(tier, 4), Chunk: 1},
+				{Kind: "hugetight:buffer", N: 2 * tierScale(tier, 4), Chunk: 1}, {Kind: "hugetight:decoder", N: 3 * tierScale(tier, 4), Chunk: 1},
+				{Kind: "longmatch:buffer", N: 6 * tierScale(tier, 4), Chunk: 2}, {Kind: "longmatch:decoder", N: 6 * tierScale(tier, 4), Chunk: 2}}
 		},
 		genC: func(r *rand.Rand, kind string, idx int64, tier string) DCase {
 			class, sut := splitKind(kind)
@@ -225,6 +234,9 @@ func init() {
 			}
 			if class == "bigtight" {
 				return tightDCase(r, sut)
+			}
+			if dc, ok := scaleDCase(r, class, sut, idx, 0); ok {
+				return dc
 			}
 			w, b := geometry(r, idx)
 			g := &DGen{SUT: sut, W: w, B: b, N: 40 + r.Intn(40), MaxItem: 2 + r.Intn(2*b), BigItems: r.Intn(3) == 0}
@@ -259,12 +271,16 @@ func init() {
 		kinds: func(tier string) []core.Segment {
 			m := tierScale(tier, 60)
 			return []core.Segment{{Kind: "corpus:buffer", N: 1640}, {Kind: "buffer", N: 16000 * m}, {Kind: "corpus:decoder", N: 820}, {Kind: "decoder", N: 8000 * m},
-				{Kind: "wrap:buffer", N: 300 * m}, {Kind: "wrap:decoder", N: 200 * m}}
+				{Kind: "wrap:buffer", N: 300 * m}, {Kind: "wrap:decoder", N: 200 * m},
+				{Kind: "manyseq:buffer", N: 300 * m, Chunk: 30}, {Kind: "manyseq:decoder", N: 300 * m, Chunk: 30}}
 		},
 		genC: func(r *rand.Rand, kind string, idx int64, tier string) DCase {
 			class, sut := splitKind(kind)
 			if class == "wrap" {
 				return wrapDCase(r, sut, idx)
+			}
+			if dc, ok := scaleDCase(r, class, sut, idx, 60); ok {
+				return dc
 			}
 			w, b := geometry(r, idx)
 			g := &DGen{SUT: sut, W: w, B: b, N: 25 + r.Intn(30), MaxItem: 2 + r.Intn(b), Hostile: 50}
@@ -290,12 +306,18 @@ func init() {
 			m := tierScale(tier, 60)
 			return []core.Segment{{Kind: "corpus:buffer", N: 1640}, {Kind: "buffer", N: 14000 * m}, {Kind: "corpus:decoder", N: 820}, {Kind: "decoder", N: 6000 * m},
 				{Kind: "big:buffer", N: 42 * m, Chunk: 3}, {Kind: "big:decoder", N: 28 * m, Chunk: 3},
-				{Kind: "faulty:decoder", N: 8000 * m}, {Kind: "bigfaulty:decoder", N: 28 * m, Chunk: 3}}
+				{Kind: "faulty:decoder", N: 8000 * m}, {Kind: "bigfaulty:decoder", N: 28 * m, Chunk: 3},
+				{Kind: "manyseq:buffer", N: 300 * m, Chunk: 30}, {Kind: "manyseq:decoder", N: 300 * m, Chunk: 30},
+				{Kind: "hugetight:buffer", N: 2 * tierScale(tier, 4), Chunk: 1}, {Kind: "hugetight:decoder", N: 2 * tierScale(tier, 4), Chunk: 1},
+				{Kind: "longmatch:buffer", N: 4 * tierScale(tier, 4), Chunk: 2}, {Kind: "longmatch:decoder", N: 4 * tierScale(tier, 4), Chunk: 2}}
 		},
 		genC: func(r *rand.Rand, kind string, idx int64, tier string) DCase {
 			class, sut := splitKind(kind)
 			if class == "big" {
 				return bigDCase(r, sut, idx, 0)
+			}
+			if dc, ok := scaleDCase(r, class, sut, idx, 5); ok {
+				return dc
 			}
 			if class == "bigfaulty" {
 				dc := bigDCase(r, sut, idx, 0)
@@ -357,12 +379,17 @@ func init() {
 		kinds: func(tier string) []core.Segment {
 			m := tierScale(tier, 50)
 			return []core.Segment{{Kind: "corpus:decoder", N: 1000}, {Kind: "decoder", N: 16000 * m}, {Kind: "faulty:decoder", N: 6000 * m}, {Kind: "buffer", N: 6000 * m},
-				{Kind: "big:decoder", N: 84 * m, Chunk: 3}}
+				{Kind: "big:decoder", N: 84 * m, Chunk: 3},
+				{Kind: "tinybig:decoder", N: 4 * tierScale(tier, 4), Chunk: 1}, {Kind: "hugetight:decoder", N: 3 * tierScale(tier, 4), Chunk: 1},
+				{Kind: "manyseq:decoder", N: 200 * m, Chunk: 30}}
 		},
 		genC: func(r *rand.Rand, kind string, idx int64, tier string) DCase {
 			class, sut := splitKind(kind)
 			if class == "big" {
 				return bigDCase(r, sut, idx, 10)
+			}
+			if dc, ok := scaleDCase(r, class, sut, idx, 10); ok {
+				return dc
 			}
 			b := 1 + r.Intn(40)
 			if r.Intn(8) == 0 {
@@ -885,12 +912,19 @@ type c07prop struct{ base }
 func (p *c07prop) Plan(tier string, seed int64) []core.Segment {
 	m := tierScale(tier, 20)
 	segs := []core.Segment{{Kind: "corpus:synthetic", N: 600}, {Kind: "synthetic", N: 9000 * m}, {Kind: "known-finding-reproducer", N: 1},
-		{Kind: "huge-window", N: 4, Chunk: 1}}
+		{Kind: "huge-window", N: 4, Chunk: 1},
+		// synthetic valid streams whose point is a size or a count (dscale.go)
+		{Kind: "syn-tinybig", N: 4 * tierScale(tier, 4), Chunk: 1}, {Kind: "syn-hugetight", N: 3 * tierScale(tier, 4), Chunk: 1},
+		{Kind: "syn-manyseq", N: 200 * m, Chunk: 20}, {Kind: "syn-longmatch", N: 6 * tierScale(tier, 4), Chunk: 2}}
 	for _, t := range gen.ParserTypes {
 		segs = append(segs, core.Segment{Kind: "corpus:parser:" + t, N: 100}, core.Segment{Kind: "parser:" + t, N: 1900 * m})
 		if tier == "thorough" {
 			segs = append(segs, core.Segment{Kind: "bigblock:" + t, N: 60, Chunk: 4})
 		}
+		// windows and blocks of a megabyte: single matches of hundreds of
+		// kilobytes with odd offsets, blocks with more than 64 Ki sequences
+		segs = append(segs, core.Segment{Kind: "longmatch:" + t, N: 4 * tierScale(tier, 4), Chunk: 1},
+			core.Segment{Kind: "manyseq:" + t, N: 2 * tierScale(tier, 4), Chunk: 1})
 	}
 	return segs
 }
@@ -917,6 +951,9 @@ func (p *c07prop) gen(r *rand.Rand, kind string, idx int64) C07Case {
 		// BlockSize 2048 on a run of 3000 bytes emits {1,2047,1}
 		return C07Case{Cfg: gen.Cfg{Type: "HP", WindowSize: 16, BufferSize: 4096, BlockSize: 2048, InputLen: 3, HashBits: 10},
 			Stream: bytes.Repeat([]byte{'a'}, 3000)}
+	case strings.HasPrefix(kind, "syn-"):
+		dc, _ := scaleDCase(r, kind[4:], "decoder", idx, 0)
+		return C07Case{Syn: &dc}
 	case kind == "synthetic":
 		w, b := geometry(r, idx)
 		g := &DGen{SUT: "decoder", W: w, B: b, N: 10 + r.Intn(25), MaxItem: 2 + r.Intn(3*b), BigItems: r.Intn(2) == 0, OnlyValid: true, NoReset: r.Intn(2) == 0}
@@ -926,6 +963,38 @@ func (p *c07prop) gen(r *rand.Rand, kind string, idx int64) C07Case {
 			fitLiterals(ops, b-w)
 		}
 		return C07Case{Syn: &DCase{WS: w, BS: b, SUT: "decoder", Ops: ops}}
+	case strings.HasPrefix(kind, "longmatch:") || strings.HasPrefix(kind, "manyseq:"):
+		class, typ := splitKind(kind)
+		sa := typ == "GSAP" || typ == "OSAP"
+		c := gen.Cfg{Type: typ}
+		if r.Intn(2) == 0 {
+			c = gen.SmallCfg(r, typ, gen.Opts{})
+			if c.MinMatch() > 4 || c.InputLen > 4 || c.InputLen1 > 4 {
+				c = gen.Cfg{Type: typ}
+			}
+		}
+		c.WindowSize, c.BlockSize, c.BufferSize, c.ShrinkSize = 1<<20, 1<<20, 3<<20, 1<<16
+		var stream []byte
+		if class == "longmatch" {
+			n := 600 << 10
+			if sa {
+				n = 150 << 10
+			}
+			periods := []int{3, 5, 7, 24, 1000, 40000, 100000, 65537, 1, 2, 4096}
+			for j := 0; j < 3; j++ {
+				stream = append(stream, gen.Family(r, "rand256", 100+r.Intn(1000), c.Hint())...)
+				stream = append(stream, gen.PeriodicRun(r, periods[(int(idx)*3+j)%len(periods)], n+r.Intn(1000), 256)...)
+			}
+		} else {
+			n := 2 << 20
+			if sa {
+				n = 600 << 10
+				c.BlockSize = 600 << 10
+			}
+			stream = gen.Records(r, n/7, 16+r.Intn(200), 4, 3)
+		}
+		c.TameBig()
+		return C07Case{Cfg: c, Stream: stream, Chunk: 65536 + r.Intn(100000), Flags: []int{0, 0, lz.NoTrailingLiterals}}
 	default:
 		class, typ := splitKind(kind)
 		o := gen.Opts{}
@@ -1122,6 +1191,12 @@ func (p *c07prop) Run(c *core.Case, st *core.Stats) []core.Violation {
 				if g := int64(s.LitLen) + int64(s.MatchLen); g > int64(W) {
 					st.Inc("sequences_longer_than_window_accepted")
 				}
+				if s.MatchLen > 65536 && s.Offset&(s.Offset-1) != 0 {
+					st.Inc("matches_longer_than_64KiB_with_offsets_that_are_no_power_of_two_accepted")
+				}
+			}
+			if len(blk.Sequences) > 65536 {
+				st.Inc("blocks_with_more_than_64Ki_sequences_accepted")
 			}
 		}
 		if !ok {
